@@ -230,4 +230,48 @@ example :
   refine .cons _ _ 0 _ _ (by decide) (by decide) (by decide) (by decide) (by decide) (by decide) ?_
   exact .nil _
 
+/-! ## Whole chains (aarch64) -/
+
+/-- A well-formed chain of frame records on aarch64. The walk ends at the record whose saved
+frame pointer is null; framehop does not report that record's return address (the outermost
+frame's caller does not exist). -/
+inductive FpChainA64 (mem : Mem) (mask : Nat) : Nat → Nat → List Nat → Prop where
+  | last (sp fp l : Nat) (hlt : fp + 16 < U64) (h8 : mem (fp + 8) = some l) (hb : mem fp = some 0) :
+      FpChainA64 mem mask sp fp []
+  | cons (sp fp fp' lr' : Nat) (rest : List Nat) (hlt : fp + 16 < U64) (hb : mem fp = some fp')
+      (h8 : mem (fp + 8) = some lr') (h0 : fp' ≠ 0) (hfp : fp < fp') (hsp : sp < fp + 16)
+      (hra : strip mask lr' ≠ 0) (tail : FpChainA64 mem mask (fp + 16) fp' rest) :
+      FpChainA64 mem mask sp fp (strip mask lr' :: rest)
+
+def fpWalkA64 (mem : Mem) : Nat → RegsA64 → List Res
+  | 0, _ => []
+  | n + 1, regs =>
+    match execA64 .useFramePointer false regs mem with
+    | .ret (.frame ra) regs' => .frame ra :: fpWalkA64 mem n regs'
+    | .ret r _ => [r]
+    | .panic _ => []
+
+/-- Walking a well-formed aarch64 frame record chain yields exactly the (stripped) return
+addresses of its records and completes with `Ok(None)`. -/
+theorem C04_a64_fp_chain_walk (mem : Mem) (mask sp fp : Nat) (ras : List Nat)
+    (h : FpChainA64 mem mask sp fp ras) (regs : RegsA64) (hm : regs.mask = mask)
+    (hsp : regs.sp = sp) (hfp : regs.fp = fp) :
+    fpWalkA64 mem (ras.length + 1) regs = ras.map .frame ++ [.done] := by
+  induction h generalizing regs with
+  | last sp fp l hlt h8 hb =>
+    simp only [List.length_nil, fpWalkA64]
+    rw [(C04_a64_null_fp_ends_chain false regs mem l (by rw [hfp]; exact hlt)
+      (by rw [hfp]; exact h8) (by rw [hfp]; exact hb)).1]
+    rfl
+  | cons sp fp fp' lr' rest hlt hb h8 h0 hfp' hsp' hra tail ih =>
+    have hc : fpConvention regs.fp mem = some (lr', fp + 16, fp') := by
+      simp [fpConvention, hfp, hb, h8]
+    have step := C04_a64_fp_rule_is_convention false regs mem lr' (fp + 16) fp' hc
+      (by rw [hfp]; exact hlt) h0 (by rw [hfp]; exact hfp') (by rw [hsp, hfp]; exact hsp')
+      (by rw [hm]; exact hra)
+    simp only [List.length_cons, fpWalkA64, step, List.map_cons, List.cons_append, hm]
+    congr 1
+    exact ih (afterA64 regs lr' (fp + 16) fp') (by simp [afterA64, hm]) (by simp [afterA64])
+      (by simp [afterA64])
+
 end FH
